@@ -464,6 +464,7 @@ package redis
 //@   prop C04 C11 C02
 //@   consumes req
 //@   requires v != nil
+//@   use lemma lower_empty
 //@   callpre SetResponse @redirections-are-followed-not-relayed arg1 == v && !(isredirection(v) && c.onRedirection != nil)
 //@   callpre field:client.onRedirection @only-moved-or-ask-errors-are-redirected arg0 == req && arg1 == v && isredirection(v)
 
